@@ -212,7 +212,7 @@ def build_ocaml():
     if rc != 0:
         return False, out
     logs = out
-    for prog in ("arena_check", "vec_check", "string_check"):
+    for prog in ("arena_check", "vec_check", "string_check", "box_check"):
         subprocess.run(["cp", os.path.join(OCAML_SRC, prog + ".ml"), OCAML_BUILD])
         rc, out = sh(["ocamlfind", "ocamlopt", "-O2", "-package", "zarith,str", "-linkpkg", "-w", "-a",
                       "model.mli", "model.ml", prog + ".ml", "-o", prog], cwd=OCAML_BUILD, timeout=600)
@@ -323,6 +323,41 @@ def run_str_shard(mode, seed, count, maxops, first, outdir, tag):
     lines = open(rep).read().split("\n")
     return {"mode": mode, "tag": tag, "trace": trace, "status": status, "lines": lines,
             "seed": seed, "first": first, "count": count, "maxops": maxops}
+
+
+BOX_TIERS = {
+    "quick": (4, 300, 30),
+    "thorough": (16, 4000, 40),
+}
+BOX_MISMATCH_PROPS = {
+    ("boxmodel", "dropped"): ["C17", "C15"],
+    ("boxmodel", "given"): ["C17", "C15"],
+}
+BOX_PROPS = ["C17"]
+
+
+def run_box_shard(mode, seed, count, maxops, first, outdir, tag):
+    trace = os.path.join(outdir, "box_%s_%s.trace" % (mode, tag))
+    rep = os.path.join(outdir, "box_%s_%s.report" % (mode, tag))
+    drv = bin_path(mode, "box_driver")
+    status = "ok"
+    with open(trace, "w") as tf:
+        try:
+            p = subprocess.run([drv, "gen", str(seed), str(count), str(maxops), str(first)],
+                               stdout=tf, stderr=subprocess.PIPE, timeout=900)
+            if p.returncode != 0:
+                status = "exit%d" % p.returncode
+        except subprocess.TimeoutExpired:
+            status = "timeout"
+    with open(trace) as tf, open(rep, "w") as rf:
+        subprocess.run([os.path.join(OCAML_BUILD, "box_check")], stdin=tf, stdout=rf, timeout=900)
+    lines = open(rep).read().split("\n")
+    return {"mode": mode, "tag": tag, "trace": trace, "status": status, "lines": lines,
+            "seed": seed, "first": first, "count": count, "maxops": maxops}
+
+
+def box_run(tier, seed, extra_tag=""):
+    return engine_run("box", BOX_TIERS, run_box_shard, "C17", tier, seed, extra_tag)
 
 
 def str_run(tier, seed, extra_tag=""):
